@@ -41,12 +41,15 @@ def cold(scr):
     return ["op", "subscribe_on", [], ["from_iter"] + scr]
 
 
-def cold_case(opn, scripts, take, sched):
+def cold_case(opn, scripts, take, sched, again=None):
     pipe = ["op", opn, [], cold(scripts[0])] + [cold(s) for s in scripts[1:]]
     if take is not None:
         pipe = ["op", "take", [take], pipe]
-    scn = ["conc", ["objects", ["pipe", pipe]], ["init", ["sub", 0, 0]], ["threads"], ["fini"], ["sched"] + sched]
-    return {"scn": scn, "kind": opn, "scripts": scripts, "take": take, "sched": sched, "src": "cold"}
+    # again: the SAME Observable value is subscribed a second time - "after" the first subscription has ended or while it is "running"
+    init = [["sub", 0, 0]] + ([["sub", 1, 0]] if again == "running" else [])
+    fini = [["sleep", 50], ["sub", 1, 0]] if again == "after" else []
+    scn = ["conc", ["objects", ["pipe", pipe]], ["init"] + init, ["threads"], ["fini"] + fini, ["sched"] + sched]
+    return {"scn": scn, "kind": opn, "scripts": scripts, "take": take, "sched": sched, "src": "cold", "users": [0, 1] if again else [0]}
 
 
 def flat_case(outer, inners, take, sched):
@@ -100,6 +103,14 @@ def generate(rng, tier, seed):
         scripts = scripts_for(rng, k, 3)
         base = seed * 1000 + rng.randrange(1000)
         cases.append(cold_case("concat", scripts, rng.choice([None, None, 2]), ["random", base, 40 if thorough else 15]))
+        # the same operator value subscribed again (after the first subscription has ended, or while it runs): each subscription
+        # gets all of every input
+        opn2 = rng.choice(["concat", "concat", "merge", "zip"])
+        cases.append(cold_case(opn2, scripts, None, ["random", base + 1, 24 if thorough else 10], again=rng.choice(["after", "running"])))
+        cases.append(cold_case(opn2, scripts, rng.choice([1, 2]), ["random", base + 2, 24 if thorough else 10], again="after"))
+        # take(0) over inputs that complete without emitting: nothing but exactly one complete
+        cases.append(cold_case(rng.choice(["merge", "concat", "zip"]), [[] for _ in range(rng.choice([1, 2, 3]))], rng.choice([0, 0, 1]), ["random", base + 3, 16 if thorough else 8]))
+        cases.append(hot_case(rng.choice(["merge", "zip"]), [[], []], 0, ["random", base + 4, 16 if thorough else 8]))
         inners = scripts_for(rng, 2, 3)
         outer = rng.choice([[0, 1], [1, 0], [0, 1, 0]])
         cases.append(flat_case(outer, inners, rng.choice([None, None, 2]), ["random", base, 40 if thorough else 15]))
@@ -129,9 +140,19 @@ def flat(v):
 
 
 def judge_one(case, ob):
+    bad, logs, multi = [], [], False
+    for u in case.get("users", [0]):
+        b, l, m = judge_user(case, ob, u)
+        bad += [("U%d: " % u if u else "") + x for x in b]
+        logs.append(l)
+        multi = multi or m
+    return bad, " | ".join(logs), multi
+
+
+def judge_user(case, ob, u):
     bad = []
     kind, scripts, take = case["kind"], case["scripts"], case["take"]
-    cbs = [c for c in vplib.callbacks_of(ob, "cb") if int(c[0]) == 0]
+    cbs = [c for c in vplib.callbacks_of(ob, "cb") if int(c[0]) == u]
     evs = [c[1] for c in cbs]
     kinds = [e[0] for e in evs]
     terms = [k for k in kinds if k != "n"]
